@@ -86,6 +86,55 @@ def parser_table(mfn, extra_consts=None):
     return out
 
 
+def parser_table_sym(cx):
+    """the same table from the path evaluator's effects of main(): add_argument calls made through helper functions, loops over
+    option tables and **dictionaries are seen as the calls they perform.  None when main() could not be evaluated that way."""
+    try:
+        lv = cx.leaves('cmdline', 'main')
+    except Exception:
+        return None
+    best = []
+    for l in lv:
+        adds = [e for e in l.effects if e[0] == 'call' and e[1][0] == 'call' and e[1][1][0] == 'attr' and e[1][1][2] == 'add_argument']
+        if len(adds) > len(best):
+            best = adds
+    out = []
+    for e in best:
+        t = e[1]
+        if any(a[0] == 'star' for a in t[2]) or any(k == '**' for k, _ in t[3]):
+            return None
+        flags = [a[1] for a in t[2] if a[0] == 'c' and isinstance(a[1], str)]
+        if len(flags) != len(t[2]):
+            return None
+        kw = dict(t[3])
+        dv = kw.get('dest')
+        dest = dv[1] if dv is not None and dv[0] == 'c' else None
+        if dv is not None and dest is None:
+            return None
+        if dest is None and flags:
+            longs = [f for f in flags if f.startswith('--')]
+            dest = (longs[0] if longs else flags[0]).lstrip('-').replace('-', '_')
+        av = kw.get('action')
+        action = av[1] if av is not None and av[0] == 'c' else None
+        if av is not None and action is None:
+            return None
+        typ = None
+        if 'type' in kw:
+            typ = term_name(kw['type']).split('.')[-1]
+        default = ('absent',)
+        if 'default' in kw:
+            try:
+                default = const_value(cx, kw['default'])
+            except ValueError:
+                default = ('expr', show(kw['default'])[:60])
+        elif action == 'store_true':
+            default = False
+        elif action is None:
+            default = None
+        out.append(dict(flags=flags, dest=dest, type=typ if typ else ('store_true' if action == 'store_true' else None), default=default, action=action, node=e[3], unresolved=False))
+    return out
+
+
 def documented_defaults(root):
     """flag -> documented default string from the captured -h block of doc/command_line_usage.rst"""
     path = os.path.join(root, 'doc', 'command_line_usage.rst')
@@ -149,6 +198,17 @@ def check(repo, rep):
     cx = Ctx(repo)
     mfn = cx.fn('cmdline', 'main')
     tab = parser_table(mfn, cx.model.mods['cmdline']['consts'])
+    tab_sym = parser_table_sym(cx)
+    tab_incomplete = False
+    if tab_sym is not None and len(tab_sym) >= len(tab):
+        tab = tab_sym            # the evaluated calls (helpers, loops over option tables expanded) when that view is at least as complete
+    else:
+        # the syntactic table is complete only if every add_argument call of the module is a literal call inside main()
+        in_main = {id(n) for n in ast.walk(mfn)}
+        for n in ast.walk(cx.model.mods['cmdline']['tree']):
+            if isinstance(n, ast.Call) and isinstance(n.func, ast.Attribute) and n.func.attr == 'add_argument':
+                if id(n) not in in_main or any(not (isinstance(a, ast.Constant) and isinstance(a.value, str)) for a in n.args):
+                    tab_incomplete = True
     rep.floor('add_argument calls', len(tab), 33)
     byflag = {}
     for row in tab:
@@ -185,11 +245,25 @@ def check(repo, rep):
         keymap_all.append(km)
     # every args_ns.x read has a dest
     nreads = 0
-    for n in ast.walk(kfn):
-        if isinstance(n, ast.Attribute) and isinstance(n.value, ast.Name) and n.value.id == kfn.args.args[0].arg:
-            nreads += 1
-            rep.ob('every option read by make_kwargs is defined by the parser (else AttributeError at start-up)', n.attr in dests, cx.where('cmdline_util', n), 'make_kwargs:args_ns.%s' % n.attr, 'args_ns.%s has no add_argument dest' % n.attr)
-    rep.floor('args_ns reads in make_kwargs', nreads, 30)
+    readers = [(kfn, kfn.args.args[0].arg)]
+    for n in ast.walk(kfn):          # helpers of the module that are handed the namespace read options too
+        if isinstance(n, ast.Call) and isinstance(n.func, ast.Name):
+            hf = cx.fn('cmdline_util', n.func.id, required=False)
+            if hf is not None and hf is not kfn:
+                for i_, a_ in enumerate(n.args):
+                    if isinstance(a_, ast.Name) and a_.id == kfn.args.args[0].arg and i_ < len(hf.args.args):
+                        readers.append((hf, hf.args.args[i_].arg))
+    seen_reads = set()
+    for rf, pn_ in readers:
+        for n in ast.walk(rf):
+            if isinstance(n, ast.Attribute) and isinstance(n.value, ast.Name) and n.value.id == pn_:
+                seen_reads.add(n.attr)
+                if n.attr not in dests and tab_incomplete:
+                    rep.unknown('args_ns.%s: no dest found, but the parser is built by constructs the table extraction does not follow' % n.attr)
+                    continue
+                rep.ob('every option read by make_kwargs is defined by the parser (else AttributeError at start-up)', n.attr in dests, cx.where('cmdline_util', n), 'make_kwargs:args_ns.%s' % n.attr, 'args_ns.%s has no add_argument dest' % n.attr)
+    nreads = len(seen_reads)
+    rep.floor('distinct options read by make_kwargs (and the helpers it hands the namespace to)', nreads, 25)
     for n in ast.walk(mfn):
         if isinstance(n, ast.Attribute) and isinstance(n.value, ast.Name) and n.value.id == 'args' and isinstance(n.ctx, ast.Load):
             rep.ob('every option read by main() is defined by the parser', n.attr in dests, cx.where('cmdline', n), 'main:args.%s' % n.attr)
@@ -204,7 +278,10 @@ def check(repo, rep):
     for flag, (grp, key, typ, dflt) in SPEC.items():
         row = byflag.get(flag)
         if row is None:
-            rep.ob('option %s exists' % flag, False, cx.where('cmdline', mfn), 'main:missing-option-%s' % flag)
+            if tab_incomplete:
+                rep.unknown('option %s not found, but the parser is built by constructs the table extraction does not follow' % flag)
+            else:
+                rep.ob('option %s exists' % flag, False, cx.where('cmdline', mfn), 'main:missing-option-%s' % flag)
             continue
         where = cx.where('cmdline', row['node'])
         dest = row['dest']
@@ -274,21 +351,26 @@ def check(repo, rep):
     split_params = {a.arg for a in split_fn.args.args}
     ar_params = {a.arg for a in ar_init.args.args}
     kw_reads = set()
-    for mod, qual in (('core', 'split'), ('io', 'get_audio_source'), ('io', 'from_file'), ('io', '_get_audio_parameters'), ('cmdline_util', 'initialize_workers')):
-        f = cx.fn(mod, qual)
-        for n in ast.walk(f):
-            if isinstance(n, ast.Call) and isinstance(n.func, ast.Attribute) and n.func.attr == 'get' and n.args and isinstance(n.args[0], ast.Constant):
+    # every place of the package that can read a keyword by name: d["k"], d.get("k"), d.pop("k"), a parameter called k, and the
+    # string tables at module level that name keywords (long/short alias pairs, option tables)
+    for mod_, d_ in cx.model.mods.items():
+        for n in ast.walk(d_['tree']):
+            if isinstance(n, ast.Call) and isinstance(n.func, ast.Attribute) and n.func.attr in ('get', 'pop') and n.args and isinstance(n.args[0], ast.Constant) and isinstance(n.args[0].value, str):
                 kw_reads.add(n.args[0].value)
-            if isinstance(n, ast.Subscript) and isinstance(n.slice, ast.Constant) and isinstance(n.slice.value, str):
+            elif isinstance(n, ast.Subscript) and isinstance(n.slice, ast.Constant) and isinstance(n.slice.value, str) and isinstance(n.ctx, ast.Load):
                 kw_reads.add(n.slice.value)
-        kw_reads |= {a.arg for a in f.args.args}
+            elif isinstance(n, (ast.FunctionDef, ast.Lambda)) and mod_ != 'cmdline':
+                kw_reads |= {a.arg for a in n.args.args + n.args.kwonlyargs}
+        for cn_, cv_ in d_['consts'].items():
+            if isinstance(cv_, (ast.Tuple, ast.List, ast.Dict, ast.Set)) and mod_ != 'cmdline':
+                kw_reads |= {x.value for x in ast.walk(cv_) if isinstance(x, ast.Constant) and isinstance(x.value, str)}
     # the literal tuple of (long, short) pairs
     for n in ast.walk(cx.fn('io', '_get_audio_parameters')):
         if isinstance(n, ast.Constant) and isinstance(n.value, str):
             kw_reads.add(n.value)
     consumed = split_params | ar_params | kw_reads
     for flag, (grp, key, typ, dflt) in SPEC.items():
-        rep.ob('the keyword %r written for %s is one its consumer reads' % (key, flag), key in consumed, cx.where('cmdline_util', kfn), 'cli-consumer[%s]' % key, '%r is read by nobody (split / AudioReader / source factory / initialize_workers)' % key)
+        rep.ob('the keyword %r written for %s is one its consumer reads' % (key, flag), key in consumed, cx.where('cmdline_util', kfn), 'cli-consumer[%s]' % key, '%r is read by no function of the package (no d[%r], d.get(%r) or parameter of that name)' % (key, key, key))
     # main wires the three groups into initialize_workers
     iw = [n for n in ast.walk(mfn) if isinstance(n, ast.Call) and ast.unparse(n.func).endswith('initialize_workers')]
     okw = False
@@ -367,19 +449,28 @@ def check(repo, rep):
             idx = [e[1] for e in l.effects if e[0] == 'call' and e[1][0] == 'call' and e[1][1][0] == 'attr' and e[1][1][2] in ('index', 'find') and e[1][2] == (('c', '%'),)]
             rep.ob('the error is raised exactly when a "%" is left after replacing %h %m %s %i', bool(idx), where, 'make_duration_formatter:leftover-test')
             continue
-        if l.outcome != 'return' or l.value[0] != 'localfunc':
+        if l.outcome != 'return' or l.value[0] not in ('localfunc', 'lambda'):
             continue
-        fnode = nested.get(l.value[2])
-        if fnode is None:
-            rep.unknown('make_duration_formatter: returned function not found')
-            continue
-        sec = ('p', fnode.args.args[0].arg)
-        env = {k: v for k, v in l.env.items()}
-        flv = [x for x in cx.sx.run('util', fnode, args={k: v for k, v in env.items() if k not in (sec[1],) and isinstance(v, tuple) and v[0] != 'localfunc'}) if x.outcome == 'return']
-        if len(flv) != 1:
-            rep.unknown('make_duration_formatter: formatter body has %d returning paths' % len(flv))
-            continue
-        v = flv[0].value
+        if l.value[0] == 'lambda':
+            # a lambda, or a nested `def f(seconds): return <expr>` (same thing to the evaluator): the body is the term
+            if len(l.value[1]) != 1:
+                rep.unknown('make_duration_formatter: returned function takes %d parameters' % len(l.value[1]))
+                continue
+            sec = ('lp', l.value[1][0])
+            v = l.value[2]
+            fnode = next((n for n in nested.values() if [a.arg for a in n.args.args] == list(l.value[1])), ffn)
+        else:
+            fnode = nested.get(l.value[2])
+            if fnode is None:
+                rep.unknown('make_duration_formatter: returned function not found')
+                continue
+            sec = ('p', fnode.args.args[0].arg)
+            env = {k: v for k, v in l.env.items()}
+            flv = [x for x in cx.sx.run('util', fnode, args={k: v for k, v in env.items() if k not in (sec[1],) and isinstance(v, tuple) and v[0] != 'localfunc'}) if x.outcome == 'return']
+            if len(flv) != 1:
+                rep.unknown('make_duration_formatter: formatter body has %d returning paths' % len(flv))
+                continue
+            v = flv[0].value
         ms = P.call('int', P.prod(P.same(sec), P.const(1000)))
         if cS and cS[0][1]:
             seen['S'] += 1
